@@ -18,7 +18,7 @@
                   has exactly message size + slack bytes)
         <msg>   = <B|S><address-hex>:<tags-hex>  B: dispatch(msg, d, true), S: dispatch(msg, d)
       -> per message  <with location buffer>/<without>,  messages separated by '|':
-           [<call>;<call>;…]m<matches>p<d.port|-|*>l<ok|loc-hex>o<d.obj> / [<call>;…]p<d.port|-|*>o<d.obj>
+           [<call>;<call>;…]m<matches|*>p*l<ok|loc-hex|*>o<d.obj> / [<call>;…]p*o<d.obj>
            (<d.obj>: the object in d.obj after the dispatch, printed like <obj path>)
            <call> = <P|D><path>@<offset of msg>,<loc-hex|NULL>,<obj path>,<d.port|-|*>
            <path> = table indices joined by '.', 'r' for the root
@@ -26,8 +26,9 @@
          (the statement fixes no order among the ports of one table); `d.port` as seen by a
          default handler is `*` (not observed); the callback of a port with a sub-table sees
          `loc` with or without the trailing '/' (printed without); `d.port` after the dispatch
-         is printed when the invoked ports form one chain root → … → leaf (otherwise it
-         depends on the order: `*`); `loc` after the dispatch is `ok` for "" or "/".
+         is not observed (`p*`: the statement is about the port pointer a callback sees);
+         `d.matches` and `loc` after the dispatch are printed for base dispatches only (`m*`,
+         `l*` otherwise), `loc` as `ok` for "" or "/".
          `oob` for a message on which the model leaves a buffer.
     R <table> <locsize>+<slack> <msg>;… [ignored]
       the harness' static tree built with the library's rRecur / rRecurs / rRecurp / rRecursp
@@ -35,7 +36,7 @@
       callbacks of the sub-tree ports are the library's and do not log: only callbacks of
       ports without sub-table are listed, without message offset (`-`), and `<obj path>`
       carries the element every enumerated port on the way hands down: `2#1.4#0`
-      (`Sugar.objIdx`, i.e. `rBOILS_BEGIN`); `d.port` after the dispatch is `*`.
+      (`Sugar.objIdx`, i.e. `rBOILS_BEGIN`).
     H <table>
       -> which lookup strategy each table of the tree gets (pre-order): `h` hashed, `l` linear
          (not compared with the implementation; used by the generator statistics and the tests)
@@ -176,22 +177,6 @@ def showCalls (md : Mode) (total : Nat) (l : List Call) : String :=
   let strs := (l.map (showCall md total)).mergeSort (fun a b => !(b < a))
   "[" ++ ";".intercalate strs ++ "]"
 
-def isPrefixOf (a b : List Nat) : Bool := a.length ≤ b.length && b.take a.length == a
-
-/-- the invoked ports form one chain root → … → leaf: sorted by length the paths have the
-    lengths 1, 2, … and each extends the one before -/
-def isChain (l : List Call) : Bool :=
-  let ps := (l.filterMap (fun c => match c.who with
-                                   | .port p => some p
-                                   | .dflt _ => none)).mergeSort (fun a b => a.length ≤ b.length)
-  let rec go (prev : List Nat) : List (List Nat) → Bool
-    | [] => true
-    | p :: r => p.length == prev.length + 1 && isPrefixOf prev p && go p r
-  go [] ps
-
-def showFinalPort (md : Mode) (l : List Call) (p : Option (List Nat)) : String :=
-  if md.sugar || !isChain l then "*" else showPort p
-
 def showFinalLoc (l : Option Bytes) : String :=
   match l with
   | some [] => "ok"
@@ -225,7 +210,12 @@ def oneMsg (sugar : Bool) (mk : List Bytes → Option Matcher) (P : Ports) (locS
         match dispatch mk P msg dd.1 base, dispatch mk P msg dd.2 base with
         | some (l1, d1), some (l2, d2) =>
           if d1.locHigh > locSize then ("oob", dd)
-          else (s!"{showCalls md msg.length l1}m{d1.nmatches}p{showFinalPort md l1 d1.port}l{showFinalLoc d1.loc}o{showObj md d1.obj}/{showCalls md msg.length l2}p{showFinalPort md l2 d2.port}o{showObj md d2.obj}", (d1, d2))
+          else
+            -- the statement speaks of the match count / loc after a ROOT dispatch and of d.port as a callback
+            -- sees it: d.port after a dispatch is not printed, d.matches / loc of a non-base dispatch neither
+            let ms := if base then toString d1.nmatches else "*"
+            let ls := if base then showFinalLoc d1.loc else "*"
+            (s!"{showCalls md msg.length l1}m{ms}p*l{ls}o{showObj md d1.obj}/{showCalls md msg.length l2}p*o{showObj md d2.obj}", (d1, d2))
         | _, _ => ("oob", dd)
       | _, _ => ("bad-msg", dd)
     | _ => ("bad-msg", dd)
